@@ -5,6 +5,7 @@ PROP = Property(
     "C20", "proof",
     kani=[KaniUnit(
         crate="mithril-common",
+        jobs=8,
         attach=[(EP, "contracts/mithril-common/c20_epoch.rs", "verif_c20")],
         contracts=[dict(file=EP, fn="has_gap_with", within="impl Epoch",
                         attrs=["#[cfg_attr(kani, kani::ensures(|r: &bool| *r == !(self.0 == other.0 || (self.0 < u64::MAX && self.0 + 1 == other.0) || (other.0 < u64::MAX && other.0 + 1 == self.0))))]"])],
